@@ -149,7 +149,9 @@ static SHORT_WRITES: std::sync::atomic::AtomicBool = std::sync::atomic::AtomicBo
 /// (--no-aftermath: the probes stop after the put and the restart; for checks that only judge the calls)
 static NO_AFTERMATH: std::sync::atomic::AtomicBool = std::sync::atomic::AtomicBool::new(false);
 
-fn probe_image(dir: &Path, cfg: &SpecCfg, names: &Names, cont_key: &str, cont_val: &str) -> Value {
+fn probe_image(dir: &Path, cfg: &SpecCfg, names: &Names, cont_key: &str, cont_val: &str, light: bool) -> Value {
+    // (light: recovery, reads, a put and a restart only - the further cut sets of one power-loss boundary)
+    let no_aftermath = light || NO_AFTERMATH.load(std::sync::atomic::Ordering::Relaxed);
     let before = ids_in(dir);
     let bytes_before = file_bytes(dir);
     // what recovery itself does to the directory is recorded as well
@@ -185,7 +187,7 @@ fn probe_image(dir: &Path, cfg: &SpecCfg, names: &Names, cont_key: &str, cont_va
     // merge, whatever the failure left behind is reclaimed by the first merge that takes every file
     let mut premerge = json!({"done": false});
     let img_parity = bytes_before.values().map(|b| b.len()).sum::<usize>() + bytes_before.len();
-    if cfg.th_small >= 1_000_000 && img_parity % 2 == 0 && !NO_AFTERMATH.load(std::sync::atomic::Ordering::Relaxed) {
+    if cfg.th_small >= 1_000_000 && img_parity % 2 == 0 && !no_aftermath {
         let hh = h.clone();
         let res = match std::panic::catch_unwind(std::panic::AssertUnwindSafe(move || hh.verif_merge())) {
             Ok(Ok(())) => "ok".to_string(),
@@ -210,7 +212,7 @@ fn probe_image(dir: &Path, cfg: &SpecCfg, names: &Names, cont_key: &str, cont_va
     let mut aft = json!({"done": false});
     let (reopened, gets_after_reopen) =
         match std::panic::catch_unwind(std::panic::AssertUnwindSafe(move || conf.open())) {
-            Ok(Ok(kv2)) if NO_AFTERMATH.load(std::sync::atomic::Ordering::Relaxed) => {
+            Ok(Ok(kv2)) if no_aftermath => {
                 let g = read_all(&kv2.get_handle(), names);
                 drop(kv2);
                 (true, g)
@@ -495,7 +497,7 @@ fn run_crash_with(b: &Behaviour, names: &Names, power: bool, max_points: usize, 
                 let isc = Scratch::new("img");
                 img.materialize(isc.path(), None);
                 pend.set(&json!({"ev": "crash", "j": j, "run": b.id, "phase": "probe"}));
-                let rec = probe_image(isc.path(), &b.cfg, names, &ck, &cv);
+                let rec = probe_image(isc.path(), &b.cfg, names, &ck, &cv, false);
                 pend.clear();
                 out.emit(&json!({"ev": "crash", "j": j, "rec": rec}));
                 nprobe += 1;
@@ -530,11 +532,12 @@ fn run_crash_with(b: &Behaviour, names: &Names, power: bool, max_points: usize, 
                         }
                     }
                 }
-                for cuts in cutsets {
+                for (ci, cuts) in cutsets.into_iter().enumerate() {
                     let isc = Scratch::new("img");
                     img.materialize(isc.path(), Some(&cuts));
                     pend.set(&json!({"ev": "power", "j": j, "run": b.id, "phase": "probe"}));
-                    let rec = probe_image(isc.path(), &b.cfg, names, &ck, &cv);
+                    // the full aftermath for the kill image, the everything-back-to-its-last-fsync image and one more
+                    let rec = probe_image(isc.path(), &b.cfg, names, &ck, &cv, ci > 2);
                     pend.clear();
                     out.emit(&json!({"ev": "power", "j": j, "cuts": cuts, "rec": rec}));
                     nprobe += 1;
